@@ -9,7 +9,7 @@ From Coq Require Import Init.Byte ZArith List Bool.
 Require Import Ojg.Base.Bytes Ojg.Base.Jv Ojg.Json.Machine Ojg.Json.Chunk.
 Require Import Ojg.Json.Ref Ojg.Json.RefParse Ojg.Json.Sweep Ojg.Json.DataInv Ojg.Json.Frontends.
 Require Import Ojg.Json.Sweep_parser Ojg.Json.Sweep_gen Ojg.Json.DSweeps Ojg.Json.ValueSim Ojg.Json.ValueSimSweeps Ojg.Json.ChunkSim.
-Require Import Ojg.Json.Sweep_tokenizer Ojg.Json.TokSim Ojg.Json.TokSweeps Ojg.Json.EvBuild.
+Require Import Ojg.Json.Sweep_tokenizer Ojg.Json.TokSim Ojg.Json.TokSweeps Ojg.Json.EvBuild Ojg.Json.Agree.
 Import ListNotations.
 
 Theorem C03_chunks_control : forall K cs,
@@ -115,6 +115,24 @@ Theorem C03_events_build_documents : forall one w evs,
   ref_events one w = Some evs -> ref_parse one false w = Some (build_events evs).
 Proof. exact ref_events_build. Qed.
 Print Assumptions C03_events_build_documents.
+
+
+(* oj.Parser and gen.Parser: the same documents (as generic values) for every input *)
+Theorem C03_parser_gen_agree : forall w,
+  match run_all fe_parser w, run_all fe_gen w with
+  | OOk d1 _, OOk d2 _ => d1 = d2
+  | OErr _ _, OErr _ _ => True
+  | _, _ => False
+  end.
+Proof. exact parser_gen_agree. Qed.
+Theorem C03_parser_gen_agree_multi : forall w,
+  match run_all fe_parser_multi w, run_all fe_gen_multi w with
+  | OOk d1 _, OOk d2 _ => d1 = d2
+  | OErr _ _, OErr _ _ => True
+  | _, _ => False
+  end.
+Proof. exact parser_gen_agree_multi. Qed.
+Print Assumptions C03_parser_gen_agree.
 
 Print Assumptions C03_values_parser.
 Print Assumptions C03_chunkings_agree_gen_multi.
